@@ -135,9 +135,16 @@ def run(ck):
     check_a(ck, repo)
     check_b(ck, repo)
     check_c(ck, repo)
-    ck.require_count("C15.a", 9, "transform shape, 4 table entries, callable, fit forwarding, returns self, constructor binding")
+    # shared clauses: the bound method follows the model (C01.g), the copy used by
+    # TransferTransformer(copy_estimator=True) shares nothing with the original (C04.c)
+    from .c01 import check_g
+    from .c04 import check_c as copies_only
+
+    check_g(ck, repo, rule="C15.a", only={"SkBaseTransformLearner"})
+    copies_only(ck, repo, rule="C15.c")
+    ck.require_count("C15.a", 10, "transform shape, 4 table entries, callable, fit forwarding, returns self, constructor binding")
     ck.require_count("C15.b", 6, "transform, fit loop, returns self, conversion x3")
-    ck.require_count("C15.c", 16, "4 fit calls x (guard, receiver), forms, provenance x3, no writes, returns self, transform, default chain")
+    ck.require_count("C15.c", 20, "4 fit calls x (guard, receiver), forms, provenance x3, no writes, returns self, transform, default chain")
 
 
 _L = "mlinsights/sklapi/sklearn_base_transform_learner.py"
